@@ -125,6 +125,17 @@ Qed.
 
 Definition last_row_unit (m : M7 R) : Prop := c6 m = row 0 0 0 0 0 0 1.
 
+Lemma sconj_closed mx my m00 m01 m02 m03 m04 m05 m06 m10 m11 m12 m13 m14 m15 m16 m20 m21 m22 m23 m24 m25 m26
+      m30 m31 m32 m33 m34 m35 m36 m40 m41 m42 m43 m44 m45 m46 m50 m51 m52 m53 m54 m55 m56 :
+  sconj mx my (mk7 (row m00 m01 m02 m03 m04 m05 m06) (row m10 m11 m12 m13 m14 m15 m16) (row m20 m21 m22 m23 m24 m25 m26)
+                   (row m30 m31 m32 m33 m34 m35 m36) (row m40 m41 m42 m43 m44 m45 m46) (row m50 m51 m52 m53 m54 m55 m56)
+                   (row 0 0 0 0 0 0 1))
+  = mk7 (row m00 m01 m02 m03 m04 m05 (m06 + mx - mx * m00 - my * m02)) (row m10 m11 m12 m13 m14 m15 (m16 - mx * m10 - my * m12))
+        (row m20 m21 m22 m23 m24 m25 (m26 + my - mx * m20 - my * m22)) (row m30 m31 m32 m33 m34 m35 (m36 - mx * m30 - my * m32))
+        (row m40 m41 m42 m43 m44 m45 (m46 - mx * m40 - my * m42)) (row m50 m51 m52 m53 m54 m55 (m56 - mx * m50 - my * m52))
+        (row 0 0 0 0 0 0 1).
+Proof. unfold sconj. mat_eq. Qed.
+
 Lemma sconj_close e mx my L r (m : M7 R) : last_row_unit m ->
   m7close e m (blockdiag 1 L 0 1 1 L 0 1 r) ->
   m7close (e * (1 + Rabs mx + Rabs my)) (sconj mx my m) (blockdiag 1 L 0 1 1 L 0 1 r).
@@ -132,18 +143,134 @@ Proof.
   destruct m as [[m00 m01 m02 m03 m04 m05 m06] [m10 m11 m12 m13 m14 m15 m16] [m20 m21 m22 m23 m24 m25 m26]
                  [m30 m31 m32 m33 m34 m35 m36] [m40 m41 m42 m43 m44 m45 m46] [m50 m51 m52 m53 m54 m55 m56] r6].
   unfold last_row_unit; cbn [c6]. intros ->.
+  change (sconj mx my _) with (sconj mx my (mk7 (row m00 m01 m02 m03 m04 m05 m06) (row m10 m11 m12 m13 m14 m15 m16) (row m20 m21 m22 m23 m24 m25 m26)
+                   (row m30 m31 m32 m33 m34 m35 m36) (row m40 m41 m42 m43 m44 m45 m46) (row m50 m51 m52 m53 m54 m55 m56)
+                   (row 0 0 0 0 0 0 1))).
+  rewrite sconj_closed.
   unfold m7close, v7close, blockdiag, row; cbn [c0 c1 c2 c3 c4 c5 c6]. intros H.
   repeat match goal with H : _ /\ _ |- _ => destruct H end.
   assert (He : 0 <= e) by (generalize (Rabs_pos (m00 - 1)); lra).
   assert (Hw : e <= e * (1 + Rabs mx + Rabs my)) by (generalize (Rabs_pos mx) (Rabs_pos my); nra).
-  unfold sconj. mred.
-  repeat split;
-  match goal with
-  | |- Rabs (?x - ?y) <= _ =>
-      first [ (* columns 0..5: unchanged *)
-              apply close_weaken with e; [exact Hw|];
-              match goal with Hh : Rabs (?a - y) <= e |- _ => replace x with a by ring; exact Hh end
-            | idtac ]
-  end.
-  Show.
-Abort.
+  repeat split.
+  all: try (apply close_weaken with e; [exact Hw|]; assumption).
+  - replace (m06 + mx - mx * m00 - my * m02 - 0) with ((m06 - 0) - mx * (m00 - 1) - my * (m02 - 0)) by ring. apply lin3_close; assumption.
+  - replace (m16 - mx * m10 - my * m12 - 0) with ((m16 - 0) - mx * (m10 - 0) - my * (m12 - 0)) by ring. apply lin3_close; assumption.
+  - replace (m26 + my - mx * m20 - my * m22 - 0) with ((m26 - 0) - mx * (m20 - 0) - my * (m22 - 1)) by ring. apply lin3_close; assumption.
+  - replace (m36 - mx * m30 - my * m32 - 0) with ((m36 - 0) - mx * (m30 - 0) - my * (m32 - 0)) by ring. apply lin3_close; assumption.
+  - replace (m46 - mx * m40 - my * m42 - 0) with ((m46 - 0) - mx * (m40 - 0) - my * (m42 - 0)) by ring. apply lin3_close; assumption.
+  - replace (m56 - mx * m50 - my * m52 - 0) with ((m56 - 0) - mx * (m50 - 0) - my * (m52 - 0)) by ring. apply lin3_close; assumption.
+Qed.
+
+(* ------------------------------------------------------------------ the drift and exact commutation *)
+Lemma drift_is_blockdiag L E : drift_map L E = blockdiag 1 L 0 1 1 L 0 1 (drift_r56 L E).
+Proof. reflexivity. Qed.
+
+Lemma drift_commutes_rot t L E : rconj t (drift_map L E) = drift_map L E.
+Proof.
+  apply m7close_0_eq. rewrite drift_is_blockdiag.
+  apply conj_blockdiag_close; apply close_refl; lra.
+Qed.
+
+Lemma drift_commutes_shift mx my L E : sconj mx my (drift_map L E) = drift_map L E.
+Proof. unfold sconj. mat_eq. Qed.
+
+Lemma misaligned_cases mx my m : misaligned mx my m = m \/ misaligned mx my m = sconj mx my m.
+Proof. unfold misaligned, sconj. destruct (Req_EM_T mx 0); [destruct (Req_EM_T my 0)|]; auto. Qed.
+
+Lemma misaligned_drift mx my L E : misaligned mx my (drift_map L E) = drift_map L E.
+Proof. destruct (misaligned_cases mx my (drift_map L E)) as [->| ->]; [reflexivity|apply drift_commutes_shift]. Qed.
+
+Lemma drift_zero_length E : drift_map 0 E = rI.
+Proof. unfold drift_map. replace (drift_r56 0 E) with 0 by (unfold drift_r56, Rdiv; ring). reflexivity. Qed.
+
+(* ------------------------------------------------------------------ base_rmatrix at hx = 0 *)
+Lemma base_untilted_hx0 L k1 E :
+  base_untilted L k1 0 E =
+  blockdiag (cx L k1 0) (sx L k1 0) (- kx2 k1 0 * sx L k1 0) (cx L k1 0) (cy L k1) (sy L k1) (- ky2 k1 * sy L k1) (cy L k1) (drift_r56 L E).
+Proof.
+  unfold base_untilted, blockdiag, row, dx, r56, drift_r56.
+  apply v7_eq; cbn [c0 c1 c2 c3 c4 c5 c6]; apply v7_eq; cbn [c0 c1 c2 c3 c4 c5 c6]; try reflexivity; unfold Rdiv, Rsqr; ring.
+Qed.
+
+Lemma off_eps_terms kappa L : 0 <= kappa -> 0 <= L ->
+  1.02 * kappa * L <= off_eps kappa L /\ 1.02 * kappa * (L * L) <= off_eps kappa L /\ 1.02 * kappa * (L * L * L) <= off_eps kappa L.
+Proof.
+  intros Hk HL. unfold off_eps.
+  assert (0 <= kappa * L) by (apply Rmult_le_pos; lra).
+  assert (0 <= kappa * (L * L)) by (apply Rmult_le_pos; [lra|apply Rmult_le_pos; lra]).
+  assert (0 <= kappa * (L * L * L)) by (apply Rmult_le_pos; [lra|repeat apply Rmult_le_pos; lra]).
+  repeat split; lra.
+Qed.
+
+Section OffBase.
+Variables (L k1 E : R).
+Let kp := k1_guard k1.
+Hypothesis HL : 0 <= L.
+Hypothesis Hq : Rabs kp * (L * L) <= 1 / 100.
+
+Lemma kx2_hx0 : kx2 k1 0 = kp.
+Proof. unfold kx2, kp, Rsqr. ring. Qed.
+
+Lemma base_entries_close :
+  let e := off_eps (Rabs kp) L in
+  Rabs (cx L k1 0 - 1) <= e /\ Rabs (sx L k1 0 - L) <= e /\ Rabs (- kx2 k1 0 * sx L k1 0 - 0) <= e /\
+  Rabs (cy L k1 - 1) <= e /\ Rabs (sy L k1 - L) <= e /\ Rabs (- ky2 k1 * sy L k1 - 0) <= e.
+Proof.
+  intros e. unfold cx, sx, cy, sy. rewrite kx2_hx0. unfold ky2. fold kp.
+  destruct (off_eps_terms (Rabs kp) L (Rabs_pos kp) HL) as [T1 [T2 T3]]. fold e in T1, T2, T3.
+  assert (Hq' : Rabs (- kp) * (L * L) <= 1 / 100) by (rewrite Rabs_Ropp; exact Hq).
+  repeat split.
+  - eapply Rle_trans; [apply Cf_near_1; assumption | exact T2].
+  - eapply Rle_trans; [apply Sf_near_L; assumption | exact T3].
+  - replace (- kp * Sf kp L - 0) with (- (kp * Sf kp L)) by ring. rewrite Rabs_Ropp.
+    eapply Rle_trans; [apply kSf_small; assumption | exact T1].
+  - eapply Rle_trans; [apply Cf_near_1; assumption | rewrite Rabs_Ropp; exact T2].
+  - eapply Rle_trans; [apply Sf_near_L; assumption | rewrite Rabs_Ropp; exact T3].
+  - replace (- - kp * Sf (- kp) L - 0) with (- (- kp * Sf (- kp) L)) by ring. rewrite Rabs_Ropp.
+    eapply Rle_trans; [apply kSf_small; assumption | rewrite Rabs_Ropp; exact T1].
+Qed.
+
+Lemma off_eps_nonneg : 0 <= off_eps (Rabs kp) L.
+Proof. destruct (off_eps_terms (Rabs kp) L (Rabs_pos kp) HL) as [T1 _]. eapply Rle_trans; [|exact T1].
+  apply Rmult_le_pos; [generalize (Rabs_pos kp); lra|assumption]. Qed.
+
+Lemma base_untilted_close : m7close (off_eps (Rabs kp) L) (base_untilted L k1 0 E) (drift_map L E).
+Proof.
+  rewrite base_untilted_hx0, drift_is_blockdiag.
+  destruct base_entries_close as [H1 [H2 [H3 [H4 [H5 H6]]]]].
+  generalize off_eps_nonneg; intros He.
+  unfold m7close, v7close, blockdiag, row; cbn [c0 c1 c2 c3 c4 c5 c6].
+  repeat split; try (apply close_refl; assumption); assumption.
+Qed.
+
+Lemma base_tilted_close t : m7close (off_eps (Rabs kp) L) (rconj t (base_untilted L k1 0 E)) (drift_map L E).
+Proof.
+  rewrite base_untilted_hx0, drift_is_blockdiag.
+  destruct base_entries_close as [H1 [H2 [H3 [H4 [H5 H6]]]]].
+  apply conj_blockdiag_close; assumption.
+Qed.
+
+Lemma base_rmatrix_cases t : base_rmatrix L k1 0 t E = base_untilted L k1 0 E \/ base_rmatrix L k1 0 t E = rconj t (base_untilted L k1 0 E).
+Proof. unfold base_rmatrix, rconj. destruct (Req_EM_T t 0); auto. Qed.
+
+Lemma base_rmatrix_close t : m7close (off_eps (Rabs kp) L) (base_rmatrix L k1 0 t E) (drift_map L E).
+Proof. destruct (base_rmatrix_cases t) as [-> | ->]; [apply base_untilted_close|apply base_tilted_close]. Qed.
+
+Lemma base_rmatrix_last_row t : last_row_unit (base_rmatrix L k1 0 t E).
+Proof.
+  destruct (base_rmatrix_cases t) as [-> | ->]; rewrite base_untilted_hx0; [reflexivity|].
+  rewrite rconj_blockdiag. reflexivity.
+Qed.
+
+(* Quadrupole.transfer_map for small |k1'|: any tilt, any misalignment *)
+Lemma quad_map_close mx my t :
+  m7close (off_eps (Rabs kp) L * (1 + Rabs mx + Rabs my)) (quad_map L k1 mx my t E) (drift_map L E).
+Proof.
+  unfold quad_map.
+  destruct (misaligned_cases mx my (base_rmatrix L k1 0 t E)) as [-> | ->].
+  - apply m7close_weaken with (off_eps (Rabs kp) L); [|apply base_rmatrix_close].
+    generalize off_eps_nonneg (Rabs_pos mx) (Rabs_pos my). nra.
+  - rewrite drift_is_blockdiag. apply sconj_close; [apply base_rmatrix_last_row|].
+    rewrite <- drift_is_blockdiag. apply base_rmatrix_close.
+Qed.
+End OffBase.
